@@ -48,6 +48,7 @@ class Ledger:
         self.it, self.prog, self.net = it, prog, net
         self.d_txin = prog.src.find_adt(['bitcoin', 'blockdata', 'transaction', 'TxIn'])
         self.d_txout = prog.src.find_adt(['bitcoin', 'blockdata', 'transaction', 'TxOut'])
+        self.sizes = {}
         self.install()
 
     # ---- values
@@ -109,6 +110,26 @@ class Ledger:
         ov['Transaction::output'] = lambda it_, k, r, a: as_slice(T(a[0]).fields[3].v)
         ov['Transaction::txid'] = lambda it_, k, r, a: txid(T(a[0]).fields[0].v.t)
         ov['Transaction::vsize'] = lambda it_, k, r, a: T(a[0]).fields[4].v
+        # the other size notions of a transaction are different numbers (witness data counts fully in total_size, not at all in
+        # base_size): symbols of their own, related to vsize only by base_size <= vsize <= total_size
+        def other_size(which):
+            def f(it_, k, r, a):
+                t = T(a[0])
+                key = (which, t.fields[0].v.t)
+                if key not in self.sizes:
+                    v = t.fields[4].v.t
+                    if isinstance(v, int):
+                        # concrete alternatives (no witness data: equal; with witness data: different) keep fee / size linear
+                        alt = v + 37 if which == 'total_size' else max(1, v - 13)
+                        self.sizes[key] = SInt([v, alt][it_.choose(2, which)], 'usize')
+                    else:
+                        x = it_.fresh('%s_%s' % (which, t.fields[0].v.t), 'usize', 1, 1 << 32)
+                        it_.assume(zt(x.t) >= zt(v) if which == 'total_size' else zt(x.t) <= zt(v))
+                        self.sizes[key] = x
+                return self.sizes[key]
+            return f
+        ov['Transaction::total_size'] = ov['Transaction::size'] = other_size('total_size')
+        ov['Transaction::base_size'] = other_size('base_size')
         ov['Block::txdata'] = lambda it_, k, r, a: as_slice(T(a[0]).fields[2].v)
         ov['Block::block_hash'] = lambda it_, k, r, a: Ref(Cell(btc.bh(T(a[0]).fields[0].v.t)))
         ov['Block::header'] = lambda it_, k, r, a: Ref(T(a[0]).fields[1])
